@@ -359,7 +359,9 @@ def handle (st : DState) (line : String) : DState × String :=
       else []
     -- "quiesced" = nothing is open on the implementation's side: no pending entries, sizes must be up to date
     let v := Spec.Fs.fsck st.geom st.shadow ps (mode = "live" || mode = "quiesced")
-    let head := if v.problems.isEmpty then "ok" else "fail " ++ "|".intercalate (v.problems.take 4)
+    -- "names": only the unique-names clause (what C11 demands after a failed call)
+    let probs := if mode = "names" then v.problems.filter (·.startsWith "D3") else v.problems
+    let head := if probs.isEmpty then "ok" else "fail " ++ "|".intercalate (probs.take 4)
     (st, s!"{head} dirs={v.dirs} files={v.files} used={v.used} reach={v.reachable} leaked={v.leaked.length}:" ++
          ",".intercalate ((v.leaked.take 6).map toString))
   | ["tree"] => (st, "#".intercalate (Spec.Fs.dumpTree st.geom st.shadow))
